@@ -31,6 +31,12 @@ static inline double vt_double_in(double lo, double hi)
     __CPROVER_assume(v >= lo && v <= hi);
     return v;
 }
+static inline bool vt_same_bits(double a, double b)
+{
+    union { double d; unsigned long u; } x, y;
+    x.d = a; y.d = b;
+    return x.u == y.u;
+}
 static inline int vt_int_in(int lo, int hi)
 {
     int v = nondet_int();
